@@ -177,7 +177,7 @@ def run(rule_filter=None, jobs=None, repo=None, quiet_rules=None):
         work.append(('quiet', 'refactor:' + os.path.basename(os.path.dirname(pf)), 'PATCH', pf, None, qrules, baseline,
                      repo, False))
     work.append(('quiet', 'normalise:ast.unparse-whole-package', 'UNPARSE', None, None, qrules, baseline, repo, False))
-    for mode in ('rename', 'invert', 'reorder', 'swapcmp', 'fstring', 'ternary', 'sqlconst', 'demorgan', 'all'):
+    for mode in ('rename', 'invert', 'reorder', 'swapcmp', 'fstring', 'ternary', 'sqlconst', 'demorgan', 'annotate', 'all'):
         work.append(('quiet', 'auto-transform:' + mode, 'AUTO:' + mode, None, None, qrules, baseline, repo, False))
     for m in QUIET:
         mid, fn, old, new = m[:4]
